@@ -98,8 +98,8 @@ def fault_oracle(k, r, c, s, f, pr_, vr, vp, vs, vf):
     return (fired and R, ret, lines, lines, errs, not (fired and F), 1 if (fired and P) else 0)
 
 
-def _run_fault(text, k, policy):
-    p, pr = fresh(text, RECS, policy=policy)
+def _run_fault(text, k, policy, config_policy=None):
+    p, pr = fresh(text, RECS, policy=policy, config_policy=config_policy)
     p.variables["k"] = k
     raised = False
     got = []
@@ -200,7 +200,9 @@ def match_oracle(kind, k, r, c, s, f, pr_, vm):
     raised, ret, s_, t_, errs, valid, printed = fault_oracle(k, r, c, s, f, pr_, vr, vp, vs, vf)
     fired = 0 <= k < NREC
     # validation-mode says match: a python exception inside a function leaves the offending line matching
-    k_returned = fired and kind == "pyexc" and not raised
+    # validation-mode says match: the offending line still matches (for an argument error unless the validation-mode itself says
+    # stop: that stop is applied inside the function, in the middle of the line)
+    k_returned = fired and not raised and (kind == "pyexc" or vs is not True)
     return (raised, [i for i in ret if i != k], s_, [i for i in t_ if i != k], errs, valid, printed, k_returned)
 
 
@@ -210,9 +212,9 @@ def match_oracle(kind, k, r, c, s, f, pr_, vm):
     pre=["{KLO} <= k <= {KHI}"],
     post="_ == match_oracle(kind, k, r, c, s, f, pr_, vm)",
     bound="as O2, under validation-mode comments containing 'match' (alone, with 'no-raise, stop', with 'no-fail'): the policy flags "
-    "and their overrides decide raise/collect/stop/fail/print exactly as before; a python exception inside a function leaves the "
-    "offending line matching. For an argument-value error the offending line itself is left out of the comparison (whether it is "
-    "returned and whether later components of it run under match+stop is not specified by the docs)",
+    "and their overrides decide raise/collect/stop/fail/print exactly as before; the offending line still "
+    "matches (for an argument-value error unless the run is stopped on it; whether later components of that line run is not compared). "
+    "The configuration file held another policy ('raise, collect') when the CsvPath was created: only the policy assigned afterwards counts",
     outside="match-mode semantics of the offending line for argument errors",
     encodes=ENC + ["csvpath/matching/functions/function.py:Function.matches (argument errors handled in place)", "csvpath/matching/functions/args.py:Args.handle_errors_if",
                    "csvpath/matching/productions/expression.py:Expression.matches (match_validation_errors)", "csvpath/modes/validation_mode.py"],
@@ -221,5 +223,6 @@ def match_oracle(kind, k, r, c, s, f, pr_, vm):
 )
 def fault_match(kind: str, vm: str, k: int, r: bool, c: bool, s: bool, f: bool, pr_: bool) -> Tuple[bool, List[int], List[int], List[int], List[int], bool, int, bool]:
     text = '~ validation-mode: %s ~ $SYM[*][ push("s", line_number()) %s push("t", line_number()) ]' % (vm.replace(",", ", "), FAULT[kind])
-    raised, ret, s_, t_, errs, valid, printed = _run_fault(text, k, policy_of(r, c, s, f, pr_, False))
-    return (raised, [i for i in ret if i != k], s_, [i for i in t_ if i != k], errs, valid, printed, (k in ret) and kind == "pyexc")
+    # the configuration file said 'raise, collect' when the CsvPath was created; the policy in force is the one assigned afterwards
+    raised, ret, s_, t_, errs, valid, printed = _run_fault(text, k, policy_of(r, c, s, f, pr_, False), config_policy="raise, collect")
+    return (raised, [i for i in ret if i != k], s_, [i for i in t_ if i != k], errs, valid, printed, (k in ret))
